@@ -35,6 +35,12 @@ def mk_table(rng, wide=False):
 
     n = rng.choice([0, 1, 2, 3])
     d = {"x": [rng.randint(0, 4) for _ in range(n)], "g": [rng.choice(["p", "q"]) for _ in range(n)]}
+    if wide:
+        # tables under one key do not always have the same columns: an overwrite must replace the description too
+        if rng.random() < 0.35:
+            d["w"] = [rng.randint(0, 9) for _ in range(n)]
+        if rng.random() < 0.25:
+            d["h"] = [rng.choice(["u", "v"]) for _ in range(n)]
     return pandas.DataFrame(d)
 
 
@@ -102,6 +108,9 @@ def step(b, spname, space, model, op, rng):
                 model[key] = table.copy()
                 if ret.table_name != key:
                     return f"insert returned description named {ret.table_name!r}; {ctx}", None
+                if set(ret.column_names) != set(table.columns):
+                    return (f"insert returned a description with columns {list(ret.column_names)} for a table with columns "
+                            f"{list(table.columns)}; {ctx}"), None
         else:
             if raised is None:
                 nk = ret.table_name
@@ -147,6 +156,9 @@ def step(b, spname, space, model, op, rng):
                 model[key] = expected
                 if ret.table_name != key:
                     return f"execute returned description named {ret.table_name!r}; {ctx}", None
+                if set(ret.column_names) != set(expected.columns):
+                    return (f"execute returned a description with columns {list(ret.column_names)} for a result with "
+                            f"columns {list(expected.columns)}; {ctx}"), None
         else:
             if raised is None:
                 nk = ret.table_name
@@ -268,18 +280,23 @@ def core_alphabet(rng):
     return ops
 
 
-def random_op(rng):
+# a second user-key alphabet: leftovers named like automatic keys with one and two digit numbers (text order and
+# numeric order of da_temp_9 / da_temp_10 differ)
+UKEYS2 = ["a", "da_temp_9", "da_temp_10", "da_temp_11"]
+
+
+def random_op(rng, ukeys=UKEYS):
     r = rng.random()
-    key = rng.choice(UKEYS + [None, None])
+    key = rng.choice(ukeys + [None, None])
     if r < 0.3:
-        return ("insert", key, rng.random() < 0.6, mk_table(rng))
+        return ("insert", key, rng.random() < 0.6, mk_table(rng, wide=True))
     if r < 0.65:
-        return ("execute", key, rng.random() < 0.5, rng.choice(PIPES), rng.choice(UKEYS), rng.choice(UKEYS))
+        return ("execute", key, rng.random() < 0.5, rng.choice(PIPES), rng.choice(ukeys), rng.choice(ukeys))
     if r < 0.8:
-        return ("remove", rng.choice(UKEYS))
+        return ("remove", rng.choice(ukeys))
     if r < 0.9:
-        return ("describe", rng.choice(UKEYS))
-    return ("retrieve", rng.choice(UKEYS))
+        return ("describe", rng.choice(ukeys))
+    return ("retrieve", rng.choice(ukeys))
 
 
 NB = {"quick": 16, "thorough": 16}
@@ -311,7 +328,10 @@ def run_batch(seed, batch, tier):
                 run_history(b, spname, ctor, (("insert", "a", True, seedt),) + hist, b.rng)
                 b.count("exhaustive_histories")
     for _ in range(NR[tier] // NB[tier]):
-        hist = tuple(random_op(b.rng) for _ in range(b.rng.randint(3, 25)))
+        ukeys = UKEYS if b.rng.random() < 0.7 else UKEYS2
+        hist = tuple(random_op(b.rng, ukeys) for _ in range(b.rng.randint(3, 25)))
+        if ukeys is UKEYS2:
+            b.count("two_digit_user_key_histories")
         for spname, ctor in spaces:
             run_history(b, spname, ctor, hist, b.rng)
             b.count("random_histories")
